@@ -265,6 +265,56 @@ func (ch c17) Run(c *core.Ctx) {
 	if cl != nil {
 		cl.Finish()
 	}
+	// the embedding program ends the context it gave the session (session middleware) while the statement
+	// runs - after its first row, before it returns its decorated error: the error the statement returns is
+	// the error the client is told, field for field
+	if c.Begin(22000000) && c.NViol() < 10 {
+		envC := hs.Start(hs.Parse, hs.EndableSessions())
+		nend := 40
+		if c.Tier == "thorough" {
+			nend = 2000
+		}
+		for i := 0; i < nend && c.NViol() < 10; i++ {
+			rng := core.NewRng(c.Seed, "C17ended", c.Batch, i)
+			spec := &hs.ErrSpec{Base: "base " + rng.Text(1+rng.Intn(40), true)}
+			for d := rng.Intn(5); d > 0; d-- {
+				spec.Wraps = append(spec.Wraps, c17wrap(core.Pick(rng, c17kinds), rng, rng.Intn(4)))
+			}
+			esess := &hs.Sess{Progs: map[string]*hs.Prog{}}
+			ecl := hs.NewClient(envC.Dial(esess))
+			if err := ecl.StartupOK("u"); err != nil || esess.EndSession == nil {
+				c.Inconclusive("C17 ended-session part: start-up failed or the session middleware did not run")
+				break
+			}
+			esess.Progs["q"] = &hs.Prog{Stmts: []*hs.Stmt{{ID: "q", Cols: textCols(1), Ops: []hs.Op{{K: "row", Vals: []any{"a"}}, {K: "call", Fn: esess.EndSession}, {K: "err", Err: spec}}}}}
+			in := pg.Query("q")
+			if i%2 == 1 {
+				in = append(append(append(pg.Parse("", "q", nil), pg.Bind("", "", nil, nil, nil)...), pg.Execute("", 0)...), pg.Sync()...)
+			}
+			out, closed := ecl.Step(in)
+			if hangCheck(c, ecl, spec) {
+				break
+			}
+			cs := map[string]any{"spec": spec.String(), "context": "the session's context ends while the statement runs"}
+			msgs, perr := parseAll(out)
+			var em *pg.BMsg
+			for k := range msgs {
+				if msgs[k].T == 'E' {
+					em = &msgs[k]
+				}
+			}
+			if perr != nil || em == nil {
+				c.Violate("transcript", "error cycle transcript after the session's context ended", fmt.Sprintf("spec %s: %v closed=%v reply %s", spec, perr, closed, pg.Types(msgs)), cs)
+				break
+			}
+			ch.compare(c, spec, *em, cs)
+			c.Count("errors_returned_after_the_session_context_ended", 1)
+			if !closed {
+				ecl.Finish()
+			}
+		}
+		envC.Stop()
+	}
 	// several connections report errors at the same moment: same severity, every connection its own code,
 	// hint and text. What a client reads are the decorations of its own error (and the race detector watches
 	// what the reports share)
